@@ -38,6 +38,7 @@ distinct = distinct case hashes.",
     assumptions: &["structural comparison of enum values via dispatch::from_codes", "D12: only the malformed classes named by the property must be rejected"],
     run,
     replay,
+    from_bytes: None,
 };
 
 fn same_codewords(a: &Codes, b: &Codes) -> Result<(), String> {
@@ -217,8 +218,12 @@ fn malformed() -> Vec<Case> {
     v.push(l("Zeta(3)(4)", Some(Code::Zeta(3))));
     v.push(l("Rice(5))", Some(Code::Rice(5))));
     for (s, c) in [("Unary", Code::Unary), ("Gamma", Code::Gamma), ("Delta", Code::Delta), ("Omega", Code::Omega), ("VByteBe", Code::VByteBe), ("VByteLe", Code::VByteLe)] {
+        // a parameterless name followed by a *numeric* parameter is a lenient form (D12) ...
         v.push(l(&format!("{}(3)", s), Some(c)));
-        v.push(l(&format!("{}()", s), Some(c)));
+        // ... but a parameter that is missing its number, negative or not a number falls under the statement
+        for (p, class) in [("()", "empty_parameter"), ("(", "empty_parameter"), ("(-1)", "negative_parameter"), ("(x)", "non_numeric_parameter"), ("(3x)", "non_numeric_parameter")] {
+            v.push(m(&format!("{}{}", s, p), class));
+        }
         v.push(l(&format!(" {}", s), Some(c)));
         v.push(l(&format!("{} ", s), Some(c)));
     }
